@@ -304,6 +304,8 @@ type Input struct {
 	AllFirst   bool             `json:"all_first,omitempty"`    // order of the two Preload calls
 	Reload     *Reload          `json:"reload,omitempty"`
 	JoinNested string           `json:"join_nested,omitempty"` // joins mode: also Joins(Rel + "." + JoinNested), a nested relation join
+	JoinDeep   string           `json:"join_deep,omitempty"`   // ... and Joins(Rel + "." + JoinNested + "." + JoinDeep): a join path of three relations
+	JoinForm   string           `json:"join_form,omitempty"`   // which joins are issued: "all" (every prefix, default) | "rel+deep" (Rel and the longest path) | "deep" (the longest path only)
 	Kept       bool             `json:"kept,omitempty"`        // assoc mode: ONE *Association is kept and used for Find(Cond), Find(Cond2), Find(), Count()
 	DupPtr     bool             `json:"dup_ptr,omitempty"`     // assoc mode, pointer slice: the SAME parent pointer occurs twice in the owners slice
 	AllAssoc   bool             `json:"all_assoc,omitempty"`
@@ -909,13 +911,25 @@ func (e *Env) run(in Input) []Obs {
 			case "none":
 				jargs = append(jargs, db.Where("1 = 0"))
 			}
-			if in.Inner {
-				tx = tx.InnerJoins(rel.Name, jargs...)
-			} else {
-				tx = tx.Joins(rel.Name, jargs...)
+			longest := rel.Name
+			if in.JoinNested != "" {
+				longest += "." + in.JoinNested
+				if in.JoinDeep != "" {
+					longest += "." + in.JoinDeep
+				}
+			}
+			if in.JoinForm != "deep" || in.JoinNested == "" {
+				if in.Inner {
+					tx = tx.InnerJoins(rel.Name, jargs...)
+				} else {
+					tx = tx.Joins(rel.Name, jargs...)
+				}
 			}
 			if in.JoinNested != "" {
-				tx = tx.Joins(rel.Name + "." + in.JoinNested)
+				if in.JoinDeep != "" && (in.JoinForm == "all" || in.JoinForm == "") {
+					tx = tx.Joins(rel.Name + "." + in.JoinNested)
+				}
+				tx = tx.Joins(longest) // a nested join path joins every relation on it
 			}
 			if in.Nested != "" {
 				tx = tx.Preload(nestedPath(in), condArgs(in.Cond2)...)
@@ -1118,6 +1132,26 @@ func (e *Env) run(in Input) []Obs {
 			oj.children = e.dump(f, rj, nil, false)
 			oj.PKeys = printable(oj.Parents)
 			out = append(out, oj)
+			if in.JoinDeep != "" {
+				// third relation of the join path, attached to the joined second-level objects
+				rd := rels[in.JoinDeep]
+				od := Obs{Rel: rn + "+" + rj.Name + "+" + rd.Name, Mode: "MJoins", Err: code, ErrText: etext,
+					hop: Hop{Single: rd.Single, Cond: Cond{Kind: "all"}, Unscoped: in.Unscoped, Poly: rd.Poly}, hop2: Hop{Cond: Cond{Kind: "all"}}}
+				for _, c1 := range lvl1 {
+					_, l2 := attached(c1, rj.Name)
+					for _, c2 := range l2 {
+						od.Parents = append(od.Parents, keyOfObj(c2, rd.PF))
+						ids, _ := attached(c2, rd.Name)
+						od.Att = append(od.Att, ids)
+					}
+				}
+				if od.Att == nil {
+					od.Att = [][]int64{}
+				}
+				od.children = e.dump(f, rd, nil, false)
+				od.PKeys = printable(od.Parents)
+				out = append(out, od)
+			}
 		}
 		if nested && in.Nested2 != "" {
 			// third segment: hop Nested2 runs on the rows loaded for the second segment
@@ -1481,12 +1515,34 @@ func genInput(r *lib.Rng, edge bool) Input {
 				single = append(single, n)
 			}
 		}
-		if len(single) > 0 && r.Chance(1, 3) {
+		if len(single) > 0 && r.Chance(1, 2) {
 			in.JoinNested = lib.Pick(r, single)
+			// a third relation on the join path, and which of its prefixes are joined explicitly
+			var deeper []string
+			for _, n := range f.nestedOf(in.JoinNested) {
+				if rels[n].Single && !rels[n].NoJoin {
+					deeper = append(deeper, n)
+				}
+			}
+			if len(deeper) > 0 && r.Chance(1, 2) {
+				in.JoinDeep = lib.Pick(r, deeper)
+			}
+			in.JoinForm = lib.Pick(r, []string{"all", "rel+deep", "deep"})
+			if in.JoinForm == "deep" { // no explicit Joins(Rel): nowhere to put ON conditions
+				in.Cond, in.Inner = Cond{Kind: "all"}, false
+			}
 			if in.JoinNested == in.Nested {
-				// the same nested relation joined AND preloaded: by design the join wins and the
-				// preload (with its conditions) is skipped - not a form with one meaning
-				in.JoinNested = ""
+				if ns2 := f.nestedOf2(in.Nested); len(ns2) > 0 {
+					// Preload BELOW the joined second relation: "Rel.JoinNested.X" (the conditions go to X)
+					in.Nested2 = lib.Pick(r, ns2)
+				} else {
+					// the same nested relation joined AND preloaded with nothing below: by design the join
+					// wins and the preload (with its conditions) is skipped - not a form with one meaning
+					in.JoinNested, in.JoinDeep = "", ""
+				}
+			}
+			if in.JoinDeep != "" && in.JoinDeep == in.Nested2 && in.Nested == in.JoinNested {
+				in.JoinDeep = ""
 			}
 		}
 	}
@@ -1510,6 +1566,20 @@ func genInput(r *lib.Rng, edge bool) Input {
 			if in.Nested == in.Rel && r.Chance(1, 3) {
 				in.Nested2 = in.Rel
 			}
+		}
+	}
+	if in.Mode == "joins" && in.JoinNested != "" {
+		// a nested relation that is both joined and preloaded is only meaningful with something
+		// preloaded BELOW it ("Rel.JoinNested.X"); the same holds one level down
+		if in.JoinNested == in.Nested && in.Nested2 == "" {
+			if ns2 := f.nestedOf2(in.Nested); len(ns2) > 0 {
+				in.Nested2 = lib.Pick(r, ns2)
+			} else {
+				in.JoinNested, in.JoinDeep = "", ""
+			}
+		}
+		if in.JoinDeep != "" && in.Nested == in.JoinNested && in.JoinDeep == in.Nested2 {
+			in.JoinDeep = ""
 		}
 	}
 	in.CondAll = Cond{Kind: "all"}
@@ -1945,6 +2015,21 @@ func targetedInputs() []Input {
 				out = append(out, Input{Fam: fam, Rel: "Team", Mode: "preload", Shape: sh, Nested: "Team", Nested2: n1, Cond: all, Cond2: all, Tables: tables})
 			}
 		}
+		// join paths of THREE relations (Boss.Boss.X), joined by the longest path only / with Joins(Boss) /
+		// with every prefix, and a preload below the first or the second relation of the path
+		for _, sh := range []struct {
+			shape string
+			sub   []int64
+		}{{"slice", nil}, {"ptrs", nil}, {"struct", []int64{107}}} {
+			for _, form := range []string{"deep", "rel+deep", "all"} {
+				for _, deep := range []string{"One", "Boss"} {
+					out = append(out,
+						Input{Fam: fam, Rel: "Boss", Mode: "joins", Shape: sh.shape, Subset: sh.sub, JoinNested: "Boss", JoinDeep: deep, JoinForm: form, Cond: all, Cond2: all, Tables: tables},
+						Input{Fam: fam, Rel: "Boss", Mode: "joins", Shape: sh.shape, Subset: sh.sub, JoinNested: "Boss", JoinDeep: deep, JoinForm: form, Nested: "Many", Cond: all, Cond2: all, Tables: tables},
+						Input{Fam: fam, Rel: "Boss", Mode: "joins", Shape: sh.shape, Subset: sh.sub, JoinNested: "Boss", JoinDeep: deep, JoinForm: form, Nested: "Boss", Nested2: "Many", Cond: all, Cond2: all, Tables: tables})
+				}
+			}
+		}
 		out = append(out, Input{Fam: fam, Rel: "Many", Mode: "preload", Shape: "slice", Nested: "Owner", Nested2: "Many", Cond: all, Cond2: all, Tables: tables})
 	}
 	// (d) relations whose keys are overridden by tags: polymorphic has many / has one with
@@ -2150,7 +2235,7 @@ func shapeOf(in Input) string {
 	fl := []byte(flags)
 	sort.Slice(fl, func(i, j int) bool { return fl[i] < fl[j] })
 	return fmt.Sprintf("%s.%s|%s|inner=%v|n=%s|all=%v|c=%s%s,%s%s|u=%v|%s|dup=%v|sub=%d|P%d,O%d,M%d,T%d,G%d,N%d,J%d|%s",
-		in.Fam, in.Rel, in.Mode, in.Inner, in.Nested+"."+in.Nested2+fmt.Sprint("|both=", in.Both, in.CondAll.Kind, in.AllUnsc, in.AllFirst, "|reload=", in.Reload != nil, "|jn=", in.JoinNested, "|dp=", in.DupPtr, "|kept=", in.Kept), in.AllAssoc, in.Cond.Kind, in.Cond.As, in.Cond2.Kind, in.Cond2.As, in.Unscoped,
+		in.Fam, in.Rel, in.Mode, in.Inner, in.Nested+"."+in.Nested2+fmt.Sprint("|both=", in.Both, in.CondAll.Kind, in.AllUnsc, in.AllFirst, "|reload=", in.Reload != nil, "|jn=", in.JoinNested, in.JoinDeep, in.JoinForm, "|dp=", in.DupPtr, "|kept=", in.Kept), in.AllAssoc, in.Cond.Kind, in.Cond.As, in.Cond2.Kind, in.Cond2.As, in.Unscoped,
 		in.Shape, in.Dup, len(in.Subset), n("P"), n("O"), n("M"), n("T"), n("G"), n("N"), n("J"), string(fl))
 }
 
@@ -2257,6 +2342,6 @@ func main() {
 		}
 		add(kind, in)
 	}
-	out.Extra["rule"] = "cases = data graph over one of 8 model families (keys: uint, string, (string,string), (int64,string), (string,int64), (int64,string) with sql.Null* foreign keys, []byte, uint by gorm's naming conventions without foreignKey/references tags) x relation {has_one, has_many, belongs_to, many2many, polymorphic, self belongs_to, self has_many} x {Preload single / nested / clause.Associations / with inline or scope conditions / a named preload with its own conditions combined with clause.Associations carrying conditions or an Unscoped scope (both orders) / the same destination loaded again after rows were soft-deleted or with other conditions, association Joins / InnerJoins without and with ON conditions passed as *gorm.DB (+nested preload below the join), Association().Find} x Unscoped x parent shape {struct, slice, slice of pointers} x duplicated parents; key strings include separators, the text nil and the empty string, numeric key parts include 0 (also as the LAST part of a composite key of a struct-shaped parent: deterministic 'targeted' stream in every tier), foreign keys include NULL and partly NULL tuples, children include soft-deleted rows; the inputs of the four defects fixed in /repo (separator / nil / zero key collisions, empty composite IN) are replayed from corpus/C11 first and occur in the random streams and the sweep like any other input; distinct = distinct (family, relation, mode, path, conditions, shape, table sizes, flags) shapes; non-trivial = at least one child attached and either two parents with different non-empty attachments or a child row of the table attached to nobody"
+	out.Extra["rule"] = "cases = data graph over one of 8 model families (keys: uint, string, (string,string), (int64,string), (string,int64), (int64,string) with sql.Null* foreign keys, []byte, uint by gorm's naming conventions without foreignKey/references tags) x relation {has_one, has_many, belongs_to, many2many, polymorphic, self belongs_to, self has_many} x {Preload single / nested / clause.Associations / with inline or scope conditions / a named preload with its own conditions combined with clause.Associations carrying conditions or an Unscoped scope (both orders) / the same destination loaded again after rows were soft-deleted or with other conditions, association Joins / InnerJoins without and with ON conditions passed as *gorm.DB, join paths of two and three relations joined by the longest path only / with Joins(Rel) / with every prefix (+nested preload below the first or the second joined relation), Association().Find} x Unscoped x parent shape {struct, slice, slice of pointers} x duplicated parents; key strings include separators, the text nil and the empty string, numeric key parts include 0 (also as the LAST part of a composite key of a struct-shaped parent: deterministic 'targeted' stream in every tier), foreign keys include NULL and partly NULL tuples, children include soft-deleted rows; the inputs of the four defects fixed in /repo (separator / nil / zero key collisions, empty composite IN) are replayed from corpus/C11 first and occur in the random streams and the sweep like any other input; distinct = distinct (family, relation, mode, path, conditions, shape, table sizes, flags) shapes; non-trivial = at least one child attached and either two parents with different non-empty attachments or a child row of the table attached to nobody"
 	lib.Must(out.Flush())
 }
